@@ -78,7 +78,8 @@ def emit_param_str(
             filter(
                 None,
                 (
-                    _fill(
+                    # The `name : type` line is never wrapped: a type is code, and its continuation line would be read as an entry
+                    (
                         (_param["typ"] if _param.get("typ") else None)
                         if name == "return_type"
                         else "{name}{typ}".format(
